@@ -520,6 +520,12 @@ const MAX_PROBE_RETRANSMITS: usize = 3;
 /// Maximum number of suspicious loss bursts that will not trigger black hole detection
 const BLACK_HOLE_THRESHOLD: usize = 3;
 
+/// `(MAX_PROBE_RETRANSMITS, BLACK_HOLE_THRESHOLD)` for the verification constants table
+#[cfg(quinn_rs_quinn_verif)]
+pub(super) fn verif_consts() -> (usize, usize) {
+    (MAX_PROBE_RETRANSMITS, BLACK_HOLE_THRESHOLD)
+}
+
 #[cfg(test)]
 mod tests {
     use super::*;
